@@ -65,6 +65,12 @@ def grammars():
                 src = shape + f"\nX: {x}\n" + (f"Y: {y}\n" if "Y" in shape else "") + (f"IGN: {ign}\n%ignore IGN\n" if ign else "")
                 chars = "".join(sorted(set(cx + (cy if "Y" in shape else "") + (" " if ign == '" "' else "x" if ign else ""))))
                 out.append({"src": src, "chars": chars, "shape": sname})
+                if sname == "XY":
+                    # configurations of the same grammar: terminal names that are prefixes of each other with a
+                    # numeric suffix (TOK / TOK_1), and an ignored terminal that is ALSO used explicitly in a rule
+                    out.append({"src": src.replace("X", "TOK_1").replace("Y", "TOK").replace("IGN", "TOK_1_0"), "chars": chars, "shape": sname + ":names"})
+                    if ign:
+                        out.append({"src": src.replace("start: X Y", "start: X IGN Y"), "chars": chars, "shape": sname + ":explicit-ignore"})
     return out, transitions
 
 
